@@ -7,7 +7,9 @@ ASSUMPTIONS = [
     "numpy is replaced, inside the harness process only, by engine/npmodel.py (1-D arrays as lists of symbolic scalars, exact real "
     "arithmetic); the model is validated differentially against the real numpy before the symbolic runs, and every counterexample "
     "is replayed with the real numpy",
-    "outside the claim: dtype/stride behaviour of real arrays, batches longer than 3, IEEE rounding of the vectorised index",
+    "outside the solver-decided claim: batches longer than 3 and IEEE rounding of the vectorised index (the symbolic harnesses use exact reals); "
+    "the latter is sampled with the real numpy on every edge, its float neighbours and midpoints of 26 configurations (C03/edge-probes), "
+    "real arrays with NaN/inf rows and zero weights are sampled by C03/buffers - both families are concrete and labelled so in their bounds",
 ]
 
 C03_SETUP = SETUP + '''
@@ -184,10 +186,20 @@ def pre_checks(tier, workdir):
                     a, b = res
                     if not (not a.startswith("EXC") and not b.startswith("EXC") and ns["_close"](json.loads(a), json.loads(b))):
                         bad.append({"tree": t.name, "x": repr(combo), "weights": wform, "numpy": res[0][:300], "model": res[1][:300]})
-    if bad:
-        print("HARNESS-ERROR: numpy model disagrees with numpy on %d of %d concrete batches, e.g. %s" % (len(bad), n_cmp, json.dumps(bad[0])))
+    gap = sorted({b["tree"] for b in bad if b["model"].startswith("EXC:") and not b["numpy"].startswith("EXC:")})
+    wrong = [b for b in bad if not (b["model"].startswith("EXC:") and not b["numpy"].startswith("EXC:"))]
+    if wrong:
+        print("HARNESS-ERROR: numpy model disagrees with numpy on %d of %d concrete batches, e.g. %s" % (len(wrong), n_cmp, json.dumps(wrong[0])))
         raise SystemExit(2)
-    return {"evaluations": 0, "decided": 0, "samples": [{"numpy_model_validation": "fill.numpy via real numpy vs via npmodel", "batches_compared": n_cmp, "trees": len(trees), "disagreements": 0}]}
+    out = {"evaluations": 0, "decided": 0, "samples": [{"numpy_model_validation": "fill.numpy via real numpy vs via npmodel", "batches_compared": n_cmp, "trees": len(trees), "disagreements": 0}]}
+    if gap:
+        # the current source calls something of numpy that the model does not implement (the model raised, numpy did not):
+        # the symbolic harnesses of those trees cannot be trusted, so they are reported undecided; the real-numpy
+        # harnesses (C03/buffers, C03 pre-validation itself) still run
+        print("MODEL-GAP: npmodel lacks a numpy feature used for %s (%s); their symbolic harnesses are reported undecided" % (gap, bad[0]["model"]))
+        out["samples"][0]["model_gap_trees"] = gap
+        out["undecidable_trees"] = gap
+    return out
 
 
 EXTRA = [
@@ -198,6 +210,9 @@ EXTRA = [
     ("UntypedLabel(Count,Label(Sum,Sum))", "H.UntypedLabel(n=H.Count(), hists=H.Label(a=H.Sum(qx), b=H.Sum(qx)))"),
     ("Branch(Count,Index(Sum,Sum))", "H.Branch(H.Count(), H.Index(H.Sum(qx), H.Sum(qx)))"),
     ("Branch(Count,Branch(Count,Sum))", "H.Branch(H.Count(), H.Branch(H.Count(), H.Sum(qx)))"),
+    ("Stack(descending)", "H.Stack([1.0, 0.0], qx)"),
+    ("Stack(descending)>Sum", "H.Stack([1.5, 0.5, 1.0], qx, H.Sum(qy))"),
+    ("IrregularlyBin(unordered)", "H.IrregularlyBin([1.0, 0.0], qx)"),
     ("Branch(Label(Count),Bin)", "H.Branch(H.Label(a=H.Count()), H.Bin(2, 0.0, 2.0, qx))"),
     ("Fraction(float)", "H.Fraction(qx, H.Count())"),
     ("Select(float)>Sum", "H.Select(qx, H.Sum(qy))"),
@@ -213,7 +228,9 @@ EXTRA = [
 
 def harnesses(tier):
     import gen_C03_extra
-    out = gen_C03_extra.harnesses(tier)
+    out = gen_C03_extra.harnesses(tier) + gen_C03_extra.buffer_harnesses(tier)
+    if __import__("os").environ.get("VERIF_C03_EDGE", "1") == "1":
+        out += gen_C03_extra.edge_harnesses(tier)
     units = [t for t in cat.unit() if _fillable(t)] + [cat.Tree(n, e) for n, e in EXTRA]
     for t in units:
         out.append(vec(t, 2, "none", special=True))
